@@ -13,6 +13,10 @@ CLAIMS = {
    "Tie: trace acceptance - histories run on the real evaluator (serial with a conductor forcing completion order incl. several completions per wake-up and queued jobs; "
    "thread/process/loky) are replayed by the extracted Coq oracle `replay`; an accepted history is provably a run of the model (C01_accepted_history_is_run).",
    note="asyncio wait/cancel semantics and executor backends are observed, not modelled (a finished task is never lost; cancel of a finished task is a no-op). Run-functions that raise are outside the property."),
+ "C12": dict(cat="proof", text="Coq theorems over an integer grid model, any dimension >= 1, any finite point list: the specification hv_spec is the number of dominated unit cells (exactness anchor), monotone under inclusion, invariant under permutation/duplication, "
+   "boundary points contribute zero, non-negative, dominated points irrelevant (hv (nds P) = hv P via C11), scaling c^d (justifies the per-case integer scaling), and the fast evaluators the driver runs (compressed grid, re-compressed slices, with nds at every level) all EQUAL the cell count (d-dimensional grid-refinement theorem). "
+   "Tie: extensional correspondence - exact equality on lattice sets (exhaustive to 3 points on {0..4}^m, m<=3, sampled beyond), tie-heavy 5-7 objective sets, dyadic sets; 1e-9 relative on floats; metamorphic clauses (monotone / permutation+duplication / boundary) and 'caller's array unchanged' decided on the implementation's outputs by extracted oracles; ObjectiveRecorder callback values.",
+   note="binary64 arithmetic of the implementation is exact on lattice/dyadic streams; the implementation's sweep algorithm is tied to the model only by behaviour; aliasing ('array unchanged') is a run-time observation."),
  "C14": dict(cat="proof", text="Coq theorems about the per-job status machine of execute()/_on_done/close (every sequence of status writes, run-function polls and returns the code can produce, any position of the deadline): "
    "statuses only move forward along READY->RUNNING->(DONE | CANCELLING->CANCELLED) (READY/RUNNING->CANCELLED at close), a terminal status is final, a running job always sees the status written last (so CANCELLING from its write until the job returns), "
    "a job told to cancel is never reported DONE, DONE / CANCELLED-after-CANCELLING are only written after the run-function returned (value kept); the enum codes are tied to the source by a regenerated fact (C14_status_codes). "
